@@ -65,6 +65,11 @@ AbsCall(f, op, k, v, ks) ==
     [] op = "badget"     -> [m |-> f, res |-> RV(v)]
     [] op = "badgetitem" -> [m |-> f, res |-> RKeyErr]
     [] op = "badcontains" -> [m |-> f, res |-> RV(0)]
+    \* removing with an unusable key is a write: rejected (pop with or without default, remove); discard does nothing
+    [] op = "badpop"     -> [m |-> f, res |-> RTypeErr]
+    [] op = "badpopdefault" -> [m |-> f, res |-> RTypeErr]
+    [] op = "badremove"  -> [m |-> f, res |-> RTypeErr]
+    [] op = "baddiscard" -> [m |-> f, res |-> ROk]
 
 \* range queries (C02): the entries whose keys lie in the interval; an omitted
 \* bound (0) is unbounded, an exclusive omitted bound drops the overall
